@@ -56,6 +56,8 @@ def cases(tier):
     for c in ps.cases(tier, with_hist=False):
         c["tier"] = tier
         c["metric"] = "planar"
+        if c.get("slice") == "n3" and tier == "quick":
+            c["n_obs"] = 3        # (the large cut-off grid is run over a 3-point observation alphabet in the quick tier)
         yield c
     for ai in range(3):
         for gs in ms.graph_slice("n3"):
